@@ -6,6 +6,9 @@
 // override) × ways of writing the parent name × text outside blocks × contexts × template size
 // (below / above the 4096-byte tokenizer switch) × position of the {% extends %} tag among the
 // top-level items of every extending template (first / behind the first block definition / last).
+// Further groups of families: repeated renders and includes (multi.go), chains through directories
+// with relative parent names (paths.go), partials with a layout chain included under variables that
+// shadow the page's (shadow.go).
 // Every program is printed from a small AST of the
 // check's own, rendered by the real engine (fresh engine per case, exported API only) and compared
 // with an evaluator of the same AST that is transcribed from the property statement.
@@ -42,6 +45,8 @@ type item struct {
 	val  string
 	body []item
 	els  []item
+	with []withVar // kInc: the variables of a `with {…}` clause (shadow.go)
+	only bool      // kInc: … followed by `only`
 }
 
 func text(s string) item              { return item{kind: kText, s: s} }
@@ -83,7 +88,7 @@ func printItems(b *strings.Builder, its []item) {
 		case kSet:
 			b.WriteString("{% set " + it.s + " = '" + it.val + "' %}")
 		case kInc:
-			b.WriteString("{% include " + it.s + it.val + " %}")
+			b.WriteString("{% include " + it.s + it.val + withClause(it.with, it.only) + " %}")
 		}
 	}
 }
@@ -125,6 +130,7 @@ type model struct {
 	includes      int    // included templates rendered
 	inclExtending int    // … of which extend a parent
 	path          string // the chain that the rendered template resolved to
+	ignoreWith    bool   // shadow.go: evaluate includes as if they had no with-clause
 }
 
 func truthy(v interface{}) bool {
@@ -190,7 +196,7 @@ func (m *model) eval(its []item, vars map[string]interface{}, cur *frame) {
 			// the block definitions of the including chain are neither seen nor changed by it
 			saved := m.over
 			m.includes++
-			m.renderTemplate(incName(it.s, vars), vars, true)
+			m.renderTemplate(incName(it.s, vars), m.includeVars(it, vars), true)
 			m.over = saved
 		case kParent:
 			if cur == nil || cur.depth+1 >= len(cur.chain) {
@@ -828,6 +834,10 @@ func run(t *vlib.T) {
 			t.Case(k, func() *vlib.Outcome { return check(c) })
 		})
 	}
+	// chains through directories with relative parent names (paths.go); partials with a layout chain
+	// included under variables that shadow the page's (shadow.go)
+	runPaths(t, seen)
+	runShadow(t, seen)
 	// programs of several chains on one engine: repeated renders with other contexts, included children (multi.go)
 	runMulti(t, seen)
 }
@@ -838,12 +848,14 @@ func main() {
 	vlib.Main(vlib.Spec{
 		ID:    "C10",
 		Level: "exploration",
-		Rule:  "every extends chain of 1–4 templates × every assignment of {absent, text, empty, parent(), parent() twice, parent() in if/for} to (level, block) × 7 base layouts × 8 ways of writing the parent name × text outside blocks × 3 contexts × padding across the 4096-byte tokenizer switch × position of the extends tag in every extending template (in front of / between / behind its block definitions), as a union of full products (families, see NOTES.md); rendered on a fresh engine and compared with an evaluator of the same AST transcribed from the statement. Families R: the same chains with a twin template beside every level and a parent name that chooses between the two (10 ways of writing it: conditionals, variables, concatenations; independently at every level), registered once on one engine and rendered three times with contexts that select different parents (x, y, x for every ordered pair of 3–4 contexts; every triple in the thorough tier) — every render must equal the model for its own context. Families I: a page (plain with blocks of its own, or the top of an extends chain of its own; block names a, b, in collide with the widget's) that includes one to three children of one layout (7 patterns of a child and its sibling; literal includes, a loop, includes with a with-clause) between its blocks, inside a default body or inside an overriding definition — every included child must render what it renders on its own and the page's blocks what they render without the includes. Non-trivial: the chain has at least two templates and at least one block that is rendered has an overriding definition (I: … and an included template that extends a parent is really rendered)",
+		Rule:  "every extends chain of 1–4 templates × every assignment of {absent, text, empty, parent(), parent() twice, parent() in if/for} to (level, block) × 7 base layouts × 8 ways of writing the parent name × text outside blocks × 3 contexts × padding across the 4096-byte tokenizer switch × position of the extends tag in every extending template (in front of / between / behind its block definitions), as a union of full products (families, see NOTES.md); rendered on a fresh engine and compared with an evaluator of the same AST transcribed from the statement. Families R: the same chains with a twin template beside every level and a parent name that chooses between the two (10 ways of writing it: conditionals, variables, concatenations; independently at every level), registered once on one engine and rendered three times with contexts that select different parents (x, y, x for every ordered pair of 3–4 contexts; every triple in the thorough tier) — every render must equal the model for its own context. Families I: a page (plain with blocks of its own, or the top of an extends chain of its own; block names a, b, in collide with the widget's) that includes one to three children of one layout (7 patterns of a child and its sibling; literal includes, a loop, includes with a with-clause) between its blocks, inside a default body or inside an overriding definition — every included child must render what it renders on its own and the page's blocks what they render without the includes. Families P: the templates of the chain live in directories and every hop writes the parent name relative to the writing template, independently one of '../base.twig', the same target by its full name, './base.twig' (in a base.twig: './layout.twig'), './inc/base.twig', '../alt/base.twig', '../../base.twig' or a plain name at the root (every combination on chains of 2–3, up/full/down on chains of 4, the SAME name at every hop on chains of up to 5–6; 3–8 ways of writing the name, static and dynamic) — several hops of one chain write the same text and mean different files. Families W: a partial with a layout chain of 2–3 (thorough 4) templates is included under an enclosing context — with-variables that shadow a variable, an assigned variable or the loop variable of the including page, the loop source and conditions of the layout, a loop variable without with-clause, an include inside an overriding block of the page's own chain, an include inside an included template, with … only — and must render exactly like the same page including the partial with its inheritance resolved by hand (base layout with every block replaced by the winning definition, every parent() by the next one; rendered by the engine as well). Non-trivial: the chain has at least two templates and at least one block that is rendered has an overriding definition (I: … and an included template that extends a parent is really rendered; P: … and at least one hop is relative; W: … and the output depends on the shadowing value and the hand-resolved twin shows it)",
 		Assumptions: []string{
 			"child templates define blocks at top level only and a block name stands in exactly one place of the chain (the statement does not say which definition a re-nested block contributes)",
 			"parent() is only printed ({{ parent() }}), bodies do not assign variables, text outside blocks contains no set",
 			"longer chains, more than three block names and other body shapes are outside the bound",
-			"families I: the included templates do not assign variables (layout `set` is left out there) and never read the loop variable of the including page; include … only is not generated (what an included template sees of the variables is not this property's subject)",
+			"families I: the included templates do not assign variables (layout `set` is left out there) and never read the loop variable of the including page; include … only is not generated there",
+			"families P: a name that begins with ./ or ../ means the file found from the directory of the template that writes it (statement C02 spells this rule out); every template a hop names exists, no hop leaves the root, no two templates of a chain are the same file",
+			"families W: which variables an include hands to the included template is not judged (C11): the verdict compares the engine's render of the extending partial with the engine's render of the hand-resolved partial at the same place; the evaluator only tells whether the shadowing value reached the output",
 		},
 		QuickDeadline: 150, ThoroughDeadline: 840,
 		Run: run,
@@ -874,6 +886,37 @@ func main() {
 				}
 				fs = append(fs, fmt.Sprintf("%s (includes): widget chains of 2..%d templates, blocks %s over {%s}, sibling: %s, %d layouts, %d name forms, %d junk variants, %d contexts, %d padding variants, %d page shapes, %d include patterns, %d include styles",
 					f.name, f.maxL, strings.Join(bl, "+"), strings.Join(chs, ","), sib, len(f.layouts), len(f.nameForms), len(f.junks), len(f.ctxs), len(f.pads), len(f.shapes), len(f.pats), len(f.styles)))
+			}
+			for _, f := range pFamilies(tier == "thorough") {
+				var bl, chs, hs, fms []string
+				for _, b := range f.blocks {
+					bl = append(bl, blockNames[b])
+				}
+				for _, c := range f.choices {
+					chs = append(chs, choiceName[c])
+				}
+				for _, h := range f.hops {
+					hs = append(hs, hopName[h])
+				}
+				for _, x := range f.forms {
+					fms = append(fms, pformName[x])
+				}
+				fs = append(fs, fmt.Sprintf("%s (directories, relative parent names): chains of %d..%d templates, every hop over {%s}, blocks %s over {%s}, %d layouts, name written as {%s}, %d junk variants, %d contexts, %d padding variants",
+					f.name, f.minL, f.maxL, strings.Join(hs, ","), strings.Join(bl, "+"), strings.Join(chs, ","), len(f.layouts), strings.Join(fms, ","), len(f.junks), len(f.ctxs), len(f.pads)))
+			}
+			for _, f := range wFamilies(tier == "thorough") {
+				var bl, chs, scs []string
+				for _, b := range f.blocks {
+					bl = append(bl, blockNames[b])
+				}
+				for _, c := range f.choices {
+					chs = append(chs, choiceName[c])
+				}
+				for _, x := range f.scens {
+					scs = append(scs, wscenName[x])
+				}
+				fs = append(fs, fmt.Sprintf("%s (partial with a layout chain included under shadowing variables): chains of 2..%d templates, blocks %s over {%s}, %d layouts, %d name forms, %d junk variants, %d contexts, scenarios {%s}, %d positions of the extends tag per level",
+					f.name, f.maxL, strings.Join(bl, "+"), strings.Join(chs, ","), len(f.layouts), len(f.nameForms), len(f.junks), len(f.ctxs), strings.Join(scs, ","), max(1, len(f.extPos))))
 			}
 			for _, f := range rFamilies(tier == "thorough") {
 				var bl, chs, sets []string
